@@ -23,6 +23,7 @@ import (
 	"fmt"
 	"io"
 	"log/slog"
+	"os"
 	"sort"
 	"strings"
 	"sync"
@@ -585,7 +586,16 @@ func TestVF_C19_Witness(t *testing.T) {
 	defer w.close()
 	// both partitions free; the session expires (and a foreign broker takes over) while the
 	// first partition's segment is being uploaded; the handler goes on to the second one.
-	_, v, err := w.produce([]c19Part{{"t1", 0}, {"t1", 1}}, -1, true, true)
+	w.h.logger = slog.New(slog.NewTextHandler(os.Stdout, &slog.HandlerOptions{Level: slog.LevelDebug}))
+	w.h.store = &c19DbgStore{w.store}
+	w.h.traceKafka = true
+	res, v, err := w.produce([]c19Part{{"t1", 0}, {"t1", 1}}, -1, true, true)
+	fmt.Printf("DEBUG res=%+v v=%q err=%v uploads=%+v trace=%v avail=%v\n", res, v, err, w.uploads, w.trace, w.h.etcdAvailable())
+	for _, op := range w.obj.Ops {
+		fmt.Printf("DEBUG op %+v\n", op)
+	}
+	vals, _, _ := w.leaseKeys()
+	fmt.Printf("DEBUG keys %v owns0=%v owns1=%v\n", vals, w.h.leaseManager.Owns("t1", 0), w.h.leaseManager.Owns("t1", 1))
 	if err != nil {
 		fmt.Println("VF-INCONCLUSIVE:", err)
 		t.Fatalf("inconclusive: %v", err)
@@ -597,4 +607,17 @@ func TestVF_C19_Witness(t *testing.T) {
 		st.Sample(map[string]any{"violation": v})
 	}
 	st.KnownResult(c19Finding, v != "", what)
+}
+
+type c19DbgStore struct{ *metadata.EtcdStore }
+
+func (d *c19DbgStore) UpdateOffsets(ctx context.Context, topic string, partition int32, lastOffset int64) error {
+	err := d.EtcdStore.UpdateOffsets(ctx, topic, partition, lastOffset)
+	fmt.Printf("DEBUG UpdateOffsets %s/%d %d -> %v avail=%v\n", topic, partition, lastOffset, err, d.Available())
+	return err
+}
+func (d *c19DbgStore) NextOffset(ctx context.Context, topic string, partition int32) (int64, error) {
+	n, err := d.EtcdStore.NextOffset(ctx, topic, partition)
+	fmt.Printf("DEBUG NextOffset %s/%d -> %d %v avail=%v\n", topic, partition, n, err, d.Available())
+	return n, err
 }
